@@ -204,6 +204,14 @@ Definition psplit_eqb (a b : psplit) : bool :=
 
 (* ------------------------------------------------------------------ correspondence case *)
 
+(* compact strings for the generated cases: B n = the bytes of n, least significant first (no NUL bytes) *)
+Fixpoint unpack_bytes (fuel : nat) (n : N) : bytes :=
+  match fuel with
+  | O => []
+  | S f => if N.eqb n 0 then [] else N.modulo n 256 :: unpack_bytes f (N.div n 256)
+  end.
+Definition B (n : N) : bytes := unpack_bytes 80 n.
+
 (* canonical order of one flush's updates: by endpoint number (the Go side iterates a set) *)
 Definition sort_outs (outs : list epout) : list epout := isort (fun a b => N.ltb (fst a) (fst b)) outs.
 
